@@ -125,7 +125,9 @@ class SequenceIterator(types.Recoverable, Iterator[_T]):
 
   @property
   def state(self) -> ShardConfig:
+    # The start of a restored config already includes the restored offset.
     start_index = self._index - self.config.start
+    start_index += self.config.state.start_index
     return dc.replace(self.config.state, start_index=start_index)
 
   def __next__(self) -> _T:
